@@ -537,9 +537,19 @@ class SiteWalker(exc.GuardWalker):
                     not isinstance(node.value, (ast.Dict,)):
                 ok = None
                 ikey = exc.key_of(node.slice)
-                if isinstance(node.value, ast.Attribute) and \
-                        node.value.attr in T.defaultdict_attrs:
-                    ok = "%s is a defaultdict" % node.value.attr
+                dd = node.value
+                if isinstance(dd, ast.Name):
+                    # a local alias: records = self._records
+                    vals = [n.value for n in walk_no_nested(f.node)
+                            if isinstance(n, ast.Assign) and
+                            len(n.targets) == 1 and
+                            isinstance(n.targets[0], ast.Name) and
+                            n.targets[0].id == dd.id]
+                    if len(vals) == 1:
+                        dd = vals[0]
+                if isinstance(dd, ast.Attribute) and \
+                        dd.attr in T.defaultdict_attrs:
+                    ok = "%s is a defaultdict" % dd.attr
                 elif self.in_try({"KeyError"}):
                     ok = "inside try/except catching KeyError"
                 elif ikey and ikey in facts.keychecked:
